@@ -1,10 +1,12 @@
 """C10 — acceptance and behaviour do not depend on top-level declaration order."""
 import json
 
+import buildlib
 import classgen
+import declgen
 import evallib
 import proggen
-from framework import load_corpus
+from framework import load_corpus, run_lines, driver
 
 
 def observable(line):
@@ -104,10 +106,71 @@ def run(chk):
         src, ds, x, y = dis
         chk.violation("evaluator model and real pipeline disagree: impl=%s model=%s\n%s" % (x[:200], y[:200], src[:400]),
                       {"source": src, "draws": ds, "kind": "program"})
+    acceptance(chk)
+
+
+def front_verdict(line):
+    """front harness 'check' reply -> accept / reject / other (parse or lexical errors are generator bugs)"""
+    parts = [x.strip() for x in line.split("|")]
+    vs = set()
+    for x in parts:
+        if x == "ok":
+            vs.add("accept")
+        elif x.startswith("err Semantic"):
+            vs.add("reject")
+        else:
+            vs.add("other:" + x[:60])
+    return vs.pop() if len(vs) == 1 else "mixed:" + line[:120]
+
+
+def acceptance(chk):
+    """declaration graphs (valid + seeded declaration errors) in several orders: the real analyser's verdict must equal
+    Decls.accept, which Props/C10.acceptance_order_independent proves order-free"""
+    rng = chk.rng
+    graphs = []
+    for _ in range(6000 if chk.thorough else 260):
+        graphs.append(declgen.DeclGraph(rng, None if rng.random() < 0.45 else rng.choice(declgen.DEFECTS)))
+    lines_impl, lines_model, owner = [], [], []
+    for gi, g in enumerate(graphs):
+        orders = [None] + perms(rng, g.n(), 3)
+        for o in orders:
+            lines_impl.append("check " + g.source(o).encode().hex())
+            lines_model.append(g.model_line(o))
+            owner.append((gi, o))
+    impl = run_lines(buildlib.build_harness("front_harness"), lines_impl, 900)[0]
+    model = driver(lines_model)[0]
+    if len(impl) != len(lines_impl) or len(model) != len(lines_model):
+        chk.violation("acceptance run incomplete: %d/%d analyser replies, %d/%d model replies" %
+                      (len(impl), len(lines_impl), len(model), len(lines_model)), {"kind": "decl-incomplete"})
+        return
+    dist = {"accept": 0, "reject": 0}
+    per_defect = {}
+    first = None
+    for k, (a, m) in enumerate(zip(impl, model)):
+        gi, o = owner[k]
+        v = front_verdict(a)
+        g = graphs[gi]
+        if o is None:
+            dist[m] = dist.get(m, 0) + 1
+            per_defect[g.applied or "none"] = per_defect.get(g.applied or "none", 0) + 1
+        chk.count((g.model_line(), str(o)))
+        if v != m and first is None:
+            first = (g, o, a, m)
+    chk.extra["acceptance_distribution"] = {"graphs": len(graphs), "orders_run": len(lines_impl), "model_verdicts": dist,
+                                            "seeded_defects": per_defect}
+    if first:
+        g, o, a, m = first
+        chk.violation("acceptance of the declarations differs from Decls.accept (order %s): analyser says %s, model says %s\n%s"
+                      % (o, a[:160], m, g.source(o)[:600]),
+                      {"source": g.source(o), "model_line": g.model_line(o), "kind": "decl", "expected": m})
 
 
 def replay(path):
     obj = json.load(open(path))
+    if obj.get("kind") == "decl":
+        a = run_lines(buildlib.build_harness("front_harness"), ["check " + obj["source"].encode().hex()], 60)[0][0]
+        print(obj["source"][:800], "\n -> analyser:", a, " model:", obj["expected"])
+        return 1 if front_verdict(a) != obj["expected"] else 0
     ps = [(obj["source"], obj.get("draws", []))] + ([(obj["variant"], obj.get("draws", []))] if "variant" in obj else [])
     _l, impl, _m, _ = evallib.run_programs(ps, with_model=False)
     for (s, _), a in zip(ps, impl):
